@@ -278,6 +278,7 @@ def unit_semilocal(mode):
         it = ctx.interp
         hyps = [tm.mk_lt(tm.const(Q(1, 10 ** 10)), RHO)]
         it.hyps = list(hyps)
+        ctx.assume("uniform-gas reference values are compared at densities above ALPHA_TOL = 1e-10 (below it s2 / alpha are cut to zero by construction)")
         fq = [SMOD + ":SemilocalSettings.ueg_vector", PMOD + ":_BaseSemilocalPlan.get_feat", PMOD + ":_BaseSemilocalPlan._fill_feat_%s_" % mode,
               SMOD + ":get_s2", SMOD + ":get_alpha"]
         res = all_paths(it, lambda: semilocal_ueg_features(it, mode))
